@@ -267,7 +267,13 @@ type argPool struct {
 }
 
 func (c *Ctx) genBig() *big.Int {
-	switch c.R.Intn(9) {
+	switch c.R.Intn(11) {
+	case 9, 10: // 0, 1, 2, the neighbours of 2^k (k = 7 ... 256) and of the amount bounds of vm/constants
+		b := arBoundaryInts[c.R.Intn(len(arBoundaryInts))]
+		if b.BitLen() > 256 {
+			b = new(big.Int).Sub(bigPow2(256), big.NewInt(1))
+		}
+		return new(big.Int).Set(b)
 	case 0:
 		return big.NewInt(0)
 	case 1:
